@@ -1,6 +1,7 @@
 #!/bin/sh
 # usage: variants_run.sh <worktree-name> <out-file> <patch>...  - applies each patch to a scratch worktree of /repo HEAD, runs all rules (tibcvet matrix)
 WT=/tmp/$1; OUT=$2; shift; shift
+export TIBCVET_TRIMPATH=1   # share the build cache between scratch worktrees
 git -C /repo worktree remove --force $WT >/dev/null 2>&1
 git -C /repo worktree add --detach $WT HEAD >/dev/null 2>&1 || exit 3
 : > "$OUT"
